@@ -2,6 +2,10 @@
 //
 // Sections
 //
+//	(everywhere)    every call that ends in a recovered panic (error report) is followed by a
+//	                call on the same object from a goroutine with a bounded wait (follow.go);
+//	                AddAllArray / Filtering arguments are windows of larger arrays in a share
+//	                of the calls (lend.go)
 //	seq-<Type>      random add / add-all / add-all-array / set / get / to-array / typed
 //	                accessors / out-of-range probes / filtering / sorting+filtering / wire
 //	                round trip on a POOL of 3..6 live typed lists, each against its own Go
@@ -300,5 +304,14 @@ func main() {
 	c.Floor("linked_other_lists_verified", 10000, c.Counter("linked_other_lists_verified"))
 	c.Floor("wire_independence_checks", 100, c.Counter("wire_independence_checks"))
 	c.Floor("sort_independence_checks", 120, c.Counter("sort_independence_checks"))
+	// error reports and what follows them; slice arguments lent as windows of larger arrays
+	c.Floor("error_reports", 700, c.Counter("error_reports"))
+	c.Floor("followups_after_error_report", 3000, c.Counter("followups_after_error_report"))
+	c.Floor("followup_sorts_checked", 3000, c.Counter("followup_sorts_checked"))
+	c.Floor("sorting_child_reports", 100, c.Counter("sorting_child_reports"))
+	c.Floor("seq_sorting_child_reports", 120, c.Counter("seq_sorting_child_reports"))
+	c.Floor("linked_error_reports", 100, c.Counter("linked_error_reports"))
+	c.Floor("addallarray_lent_window", 600, c.Counter("addallarray_lent_window"))
+	c.Floor("filtering_lent_window", 500, c.Counter("filtering_lent_window"))
 	c.Finish()
 }
